@@ -126,13 +126,17 @@ class Lock:
 _metas = {}
 
 
-def project_metas(project, th):
-    if project in _metas:
-        return _metas[project]
+def project_metas(project, th, needed=None):
+    """codegen for `project`, restricted to the harness paths in `needed` (None = all). The stamp remembers which harnesses
+    were generated for this tree; a later request for others regenerates the union."""
     cfg = PROJECTS[project]
     tdir = os.path.join(WORK, project)
     os.makedirs(tdir, exist_ok=True)
     stamp = os.path.join(tdir, "stamp.json")
+    want = None if needed is None else set(needed)
+    cached = _metas.get(project)
+    if cached and cached[0] is not None and (want is not None and all(find_meta(cached[0], w) for w in want)):
+        return cached
     with Lock(os.path.join(WORK, project + ".lock")):
         st = None
         if os.path.exists(stamp):
@@ -141,15 +145,22 @@ def project_metas(project, th):
             except Exception:
                 st = None
         if st and st.get("tree") == th and all(os.path.exists(m["goto_file"]) for m in st["metas"].values()):
-            _metas[project] = (st["metas"], st["codegen_s"], None)
-            return _metas[project]
+            have_all = st.get("all", False)
+            if have_all or (want is not None and all(find_meta(st["metas"], w) for w in want)):
+                _metas[project] = (st["metas"], st["codegen_s"], None)
+                return _metas[project]
+            if want is not None:
+                want |= set(st.get("filter", []))
         try:
             metas, secs, out = kdrive.codegen(cfg["manifest_dir"], os.path.join(tdir, "target"), cfg["extra"],
-                                              log=os.path.join(tdir, "codegen.log"), rustflags=cfg["rustflags"])
+                                              log=os.path.join(tdir, "codegen.log"), rustflags=cfg["rustflags"],
+                                              harness_filter=sorted(want) if want is not None else ())
         except RuntimeError as e:
             _metas[project] = (None, 0.0, str(e))
             return _metas[project]
-        json.dump({"tree": th, "metas": metas, "codegen_s": secs}, open(stamp, "w"))
+        if want is not None:
+            metas = {k: v for k, v in metas.items() if any(k.endswith("::" + w) or k == w for w in want)}
+        json.dump({"tree": th, "metas": metas, "codegen_s": secs, "all": want is None, "filter": sorted(want or [])}, open(stamp, "w"))
         _metas[project] = (metas, secs, None)
         return _metas[project]
 
@@ -248,13 +259,16 @@ class MemBudget:
             self.cv.notify_all()
 
 
+NEEDED = {}  # project -> harness paths this process will need (set before the first codegen)
+
+
 BUDGET = MemBudget(int(os.environ.get("VERIF_MEM_GB", "54")))
 
 
 def run_harness(name, th, tier, use_memo=True):
     spec = registry.HARNESSES[name]
     project = spec.get("project", "incrate")
-    metas, codegen_s, err = project_metas(project, th)
+    metas, codegen_s, err = project_metas(project, th, NEEDED.get(project))
     res = {"harness": name, "project": project}
     if metas is None:
         res.update(status="BROKEN-HARNESS", detail=err[-3000:])
@@ -425,7 +439,7 @@ def triage_failure(name, res, th, prop_id):
     if project == "incrate":
         # counterexamples are extracted from the table-hash build of the same harness (replayable values)
         project = "incrate-table"
-    metas, _, err = project_metas(project, th)
+    metas, _, err = project_metas(project, th, [spec["path"]])
     if metas is None:
         return [{"kind": "inconclusive", "why": "table-mode build failed: " + err[-400:]}]
     meta = find_meta(metas, spec["path"])
@@ -493,8 +507,10 @@ def check_property(pid, tier, jobs):
         names = names[seed % len(names):] + names[:seed % len(names)]
     th = tree_hash()
     log("[vcheck] property=%s tier=%s tree=%s harnesses=%d" % (pid, tier, th, len(names)))
+    for n in names:
+        NEEDED.setdefault(registry.HARNESSES[n].get("project", "incrate"), []).append(registry.HARNESSES[n]["path"])
     for project in sorted({registry.HARNESSES[n].get("project", "incrate") for n in names}):
-        metas, secs, err = project_metas(project, th)
+        metas, secs, err = project_metas(project, th, NEEDED[project])
         if metas is None:
             log("INCONCLUSIVE property=%s BROKEN-HARNESS project=%s: the harness crate does not compile against the "
                 "current tree\n%s" % (pid, project, err[-2500:]))
@@ -653,6 +669,8 @@ def main():
         th = tree_hash()
         rc = 0
         names = [x for x in a[1:] if not x.startswith("--")]
+        for n in names:
+            NEEDED.setdefault(registry.HARNESSES[n].get("project", "incrate"), []).append(registry.HARNESSES[n]["path"])
         with cf.ThreadPoolExecutor(max_workers=jobs) as ex:
             futs = [ex.submit(run_harness, n, th, "thorough", "--no-memo" not in a) for n in names]
             for fu in cf.as_completed(futs):
@@ -669,7 +687,7 @@ def main():
                     print("    detail:", r["detail"][-1500:])
                 if r["status"] == "FAILED" and "--triage" in a:
                     for o in triage_failure(r["harness"], r, th, "DEV"):
-                        print("    triage:", json.dumps(o)[:600])
+                        print("    triage:", json.dumps({k: v for k, v in o.items() if k != "native"}))
                 if r["status"] != "SUCCESS":
                     rc = 1
         return rc
